@@ -12,7 +12,7 @@ import ast
 
 from ..model import AnalysisError, body_without_doc, call_name, cmp_triples, loc, unparse
 from .. import terms as T
-from ..terms import Poly, Extract, Unsupported
+from ..terms import Poly, Extract, Unsupported, F
 
 CW = "beyond/propagators/cw.py"
 
@@ -299,6 +299,126 @@ def r16_3(chk):
     chk.floor("R16.3", 9)
 
 
+HELPER = "beyond/utils/cwhelper.py"
+
+
+def _phi_psi(chk):
+    f = chk.repo.func(CW, "ClohessyWiltshire._propagate")
+    ex = Extract()
+    ex.run(body_without_doc(f.node))
+    Phi, Psi = ex.env.get("evol_mat"), ex.env.get("accel_mat")
+    n, t = ex.env.get("n"), ex.env.get("t")
+    if not (T.is_mat(Phi) and T.is_mat(Psi) and isinstance(n, Poly) and isinstance(t, Poly)):
+        raise AnalysisError("CW matrices not extractable")
+    return Phi, Psi, n, next(iter(t.atoms())), next(iter(n.atoms()))
+
+
+def r16_4(chk):
+    """CWHelper: each helper's maneuvers, pushed through the matrices read from cw.py, move the chaser by the distances the
+    helper announces and leave it where it says (QSW orientation; TNW is the similarity transform of R16.2)."""
+    Phi, Psi, n, t_atom, n_atom = _phi_psi(chk)
+    pi = Poly.atom(T.PI)
+
+    def at(angle):
+        """Φ and Ψ at n·t = angle."""
+        sub = {t_atom: angle / n}
+        return T.mat_map(lambda p: T.subs(p, sub), Phi), T.mat_map(lambda p: T.subs(p, sub), Psi)
+
+    cls = chk.repo.cls(HELPER, "CWHelper")
+    env = {"self.n": n, "self._mat3": T.identity(3), "self._mat6": T.identity(6)}
+    where = lambda f: loc(f, f.node)
+    r, d = Poly.atom("radial"), Poly.atom("tangential")
+    Z = Poly()
+    # period
+    f = cls.methods["period"]
+    ok = "timedelta(seconds=np.pi * 2 / self.n)" in unparse(f.node)
+    chk.inst("R16.4", f"{f.ref}", ok, "period = 2π/n" if ok else "changed", where(f))
+    # coelliptic: x stays, no radial velocity, drift −3/2 n x
+    f = cls.methods["coelliptic_velocity"]
+    cv = Extract(env=dict(env)).run(body_without_doc(f.node)).get("return")
+    ok = isinstance(cv, Poly) and T.equal(cv, F(3, 2) * n * r)
+    chk.obl("R16.4", f"{f.ref}", ok, "3/2 n x" if ok else "changed", where(f))
+    f = cls.methods["coelliptic"]
+    call = [c for c in ast.walk(f.node) if isinstance(c, ast.Call) and unparse(c.func) == "Orbit"]
+    ex = Extract(env=dict(env), subst={"self.coelliptic_velocity(radial)": F(3, 2) * n * r})
+    s0 = ex.ev(call[0].args[0]) if call else None
+    if not (isinstance(s0, list) and len(s0) == 6):
+        raise AnalysisError(f"{f.ref}: initial state not extractable")
+    st = T.matmul(Phi, s0)
+    ok = T.equal(st[0], r) and T.equal(st[3], Z) and T.equal(st[4], -F(3, 2) * n * r) and T.equal(st[2], Z)
+    chk.obl("R16.4", f"{f.ref}::stays-coelliptic", ok, "under Φ(t) the radial offset is constant, the radial rate zero and the drift −3/2 n x for all t" if ok else
+            f"x(t) = {T.fmt(st[0])}, ẋ = {T.fmt(st[3])}, ẏ = {T.fmt(st[4])}", where(f))
+    # helpers returning maneuvers: extract the dv vector
+    def dv_of(name, extra=None):
+        f = cls.methods[name]
+        ex = Extract(env=dict(env, **(extra or {})))
+        for s_ in body_without_doc(f.node):
+            if isinstance(s_, ast.Assign) and unparse(s_.targets[0]) == "dv":
+                return f, ex.ev(s_.value)
+        raise AnalysisError(f"{f.ref}: dv not found")
+    # Hohmann: two tangential impulses half a period apart
+    f, dv = dv_of("hohmann")
+    P1, _ = at(pi)
+    s1 = T.matmul(P1, [Z, Z, Z] + dv)
+    fd = cls.methods["hohmann_distance"]
+    hd = Extract(env=dict(env)).run([x for x in body_without_doc(fd.node) if isinstance(x, ast.Assign)]).get("res")
+    ok = T.equal(s1[0], r)
+    chk.obl("R16.4", f"{f.ref}::radial-distance", ok, "after half a period the chaser has moved radially by exactly `radial`" if ok else f"x(π) = {T.fmt(s1[0])}", where(f))
+    ok = isinstance(hd, Poly) and T.equal(s1[1] * s1[1], hd * hd)
+    chk.obl("R16.4", f"{fd.ref}::along-track", ok, "the along-track travel of the transfer is hohmann_distance(radial) = 3π/4 · radial" if ok else f"y(π) = {T.fmt(s1[1])}, announced {T.fmt(hd) if isinstance(hd, Poly) else '?'}", where(fd))
+    after = [s1[3] + dv[0], s1[4] + dv[1]]
+    ok = T.equal(after[0], Z) and T.equal(after[1], -F(3, 2) * n * r)
+    chk.obl("R16.4", f"{f.ref}::arrival", ok, "the second impulse leaves the chaser on the coelliptic orbit of the new radius (ẋ = 0, ẏ = −3/2 n radial)" if ok else f"after: ẋ = {T.fmt(after[0])}, ẏ = {T.fmt(after[1])}", where(f))
+    t_ = unparse(f.node)
+    ok = "ImpulsiveMan(date, dv), ImpulsiveMan(date + self.period / 2, dv)" in t_ and "ContinuousMan(date, self.period, dv=2 * dv)" in t_
+    chk.inst("R16.4", f"{f.ref}::timing", ok, "impulses half a period apart; the continuous variant delivers 2·dv over one period" if ok else "changed", where(f))
+    ok = "return res * 2 if continuous else res" in unparse(fd.node)
+    chk.inst("R16.4", f"{fd.ref}::continuous-doubling", ok, "continuous transfer travels twice as far" if ok else "changed", where(fd))
+    # eccentric boost: two radial impulses half a period apart
+    f, dv = dv_of("eccentric_boost")
+    s1 = T.matmul(P1, [Z, Z, Z] + dv)
+    ok = T.equal(s1[1], d) and T.equal(s1[0], Z)
+    chk.obl("R16.4", f"{f.ref}::along-track", ok, "after half a period the chaser has moved along-track by exactly `tangential`, back on the V-bar" if ok else f"x(π) = {T.fmt(s1[0])}, y(π) = {T.fmt(s1[1])}", where(f))
+    ok = T.equal(s1[3] + dv[0], Z) and T.equal(s1[4] + dv[1], Z)
+    chk.obl("R16.4", f"{f.ref}::arrival", ok, "the second impulse leaves it at rest relative to the target" if ok else "not at rest", where(f))
+    t_ = unparse(f.node)
+    ok = "ImpulsiveMan(date, dv), ImpulsiveMan(date + self.period / 2, dv)" in t_.replace("(ImpulsiveMan(date, dv), ImpulsiveMan(date + self.period / 2, dv))", "ImpulsiveMan(date, dv), ImpulsiveMan(date + self.period / 2, dv)")
+    chk.inst("R16.4", f"{f.ref}::timing", ok, "impulses half a period apart" if ok else "changed", where(f))
+    # tangential boost: +dv, one period, −dv
+    f, dv = dv_of("tangential_boost")
+    P2, _ = at(2 * pi)
+    s2 = T.matmul(P2, [Z, Z, Z] + dv)
+    ok = T.equal(s2[1], d) and T.equal(s2[0], Z)
+    chk.obl("R16.4", f"{f.ref}::along-track", ok, "after one period the chaser has moved along-track by exactly `tangential`" if ok else f"y(2π) = {T.fmt(s2[1])}", where(f))
+    ok = T.equal(s2[3] - dv[0], Z) and T.equal(s2[4] - dv[1], Z)
+    chk.obl("R16.4", f"{f.ref}::arrival", ok, "the opposite impulse after one period leaves it at rest" if ok else "not at rest", where(f))
+    ok = "ImpulsiveMan(date, dv), ImpulsiveMan(date + self.period, -dv)" in unparse(f.node)
+    chk.inst("R16.4", f"{f.ref}::timing", ok, "+dv, one period, −dv" if ok else "changed", where(f))
+    # V-bar linear approach: constant along-track speed under radial thrust −2 n dv
+    f = cls.methods["vbar_linear"]
+    v = Poly.atom("dv")
+    ex = Extract(env=dict(env, dv=v))
+    acc = dv1 = None
+    for s_ in body_without_doc(f.node):
+        if isinstance(s_, ast.Assign) and unparse(s_.targets[0]) == "accel":
+            acc = ex.ev(s_.value)
+        elif isinstance(s_, ast.Assign) and unparse(s_.targets[0]) == "dv1":
+            dv1 = ex.ev(s_.value)
+    if acc is None or dv1 is None:
+        raise AnalysisError(f"{f.ref}: accel / dv1 not found")
+    y0 = Poly.atom("y0")
+    st = [a + b for a, b in zip(T.matmul(Phi, [Z, y0, Z] + dv1), T.matmul(Psi, acc))]
+    tt = Poly.atom(t_atom)
+    ok = T.equal(st[0], Z) and T.equal(st[1], y0 + v * tt) and T.equal(st[3], Z) and T.equal(st[4], v)
+    chk.obl("R16.4", f"{f.ref}::straight-line", ok, "under the thrust the chaser stays on the V-bar and advances at exactly dv: y(t) = y0 + dv·t for all t" if ok else
+            f"x(t) = {T.fmt(st[0])}, y(t) = {T.fmt(st[1])}", where(f))
+    t_ = unparse(f.node)
+    ok = "duration = timedelta(seconds=abs(tangential / dv))" in t_ and "dv = np.sign(tangential) * dv" in t_ \
+        and "(ImpulsiveMan(date, dv1), ContinuousMan(date, duration, accel=accel), ImpulsiveMan(date + duration, -dv1))" in t_
+    chk.inst("R16.4", f"{f.ref}::sequence", ok, "start impulse, thrust for |tangential/dv|, opposite stop impulse (at rest at arrival)" if ok else "changed", where(f))
+    chk.floor("R16.4", 16)
+
+
 def run(chk):
     chk.rule("R16.1", "closed-form CW matrices satisfy Hill's ODE and initial values entry by entry (term algebra)")
     chk.rule("R16.2", "QSW<->TNW is the fixed signed permutation; TNW arm is a similarity transform")
@@ -306,4 +426,6 @@ def run(chk):
     chk.guard(r16_1, chk)
     chk.guard(r16_2, chk)
     chk.guard(r16_3, chk)
+    chk.rule("R16.4", "CWHelper maneuvers realise their announced distances under the matrices of cw.py (term algebra)")
+    chk.guard(r16_4, chk)
     chk.assume("Hill's equations: x''=3n²x+2ny'+ax, y''=-2nx'+ay, z''=-n²z+az with x radial, y along-track, z cross-track")
